@@ -54,6 +54,17 @@ func genC04(t *rapid.T) C04Case {
 			lay.EOLs = append(lay.EOLs, "\r")
 		}
 		src, _ := luagen.Render(t, toks, lay)
+		if origin == "valid" && rapid.Bool().Draw(t, "annotations") {
+			// annotation comments whose names are entities too: classes, an alias, generics with and
+			// without a constraint, and their uses in @param / @return / @type lines
+			if !strings.HasSuffix(src, "\n") && !strings.HasSuffix(src, "\r") {
+				src += "\n"
+			}
+			src += fmt.Sprintf("---@class AnnCls%d\n---@field wheels number\n---@class AnnSub%d : AnnCls%d\n---@alias AnnAli%d number\n"+
+				"---@generic TG%d : AnnCls%d, KG%d\n---@param vehicle TG%d\n---@param key KG%d\n---@param load AnnAli%d\n---@return TG%d\n"+
+				"local function anndrive%d(vehicle, key, load)\n  return vehicle\nend\n---@type AnnSub%d\nlocal annv%d = nil\nprint(anndrive%d, annv%d)\n",
+				i, i, i, i, i, i, i, i, i, i, i, i, i, i, i, i)
+		}
 		ws.Files = append(ws.Files, WSFile{Path: wsFileNames[i], Text: src})
 	}
 	return C04Case{WS: ws, Origin: origin}
@@ -61,6 +72,7 @@ func genC04(t *rapid.T) C04Case {
 
 var (
 	reNotDefine = regexp.MustCompile(`var not define: (?:_G\.)?([A-Za-z_][A-Za-z0-9_]*)`)
+	reAnnName   = regexp.MustCompile(`\b(AnnCls|AnnSub|AnnAli|TG|KG)\d+\b`)
 	reDupParam  = regexp.MustCompile(`duplicate var:'([A-Za-z_][A-Za-z0-9_]*)'`)
 	reNotUsed   = regexp.MustCompile(`^\[Warn type:\d+\], ([A-Za-z_][A-Za-z0-9_]*) declared and not used`)
 )
@@ -151,8 +163,25 @@ func checkC04(c C04Case, env *Env) *Violation {
 				ids = append(ids, ident{o.Name.Text, o.Name.Span, true})
 			}
 		}
-		for _, id := range ids {
+		// names inside annotation lines (definition only)
+		annFrom := len(ids)
+		for _, ln := range refmodel.Lines(f.Text) {
+			line := f.Text[ln.Start:ln.End]
+			if !strings.HasPrefix(line, "---@") {
+				continue
+			}
+			for _, m := range reAnnName.FindAllStringIndex(line, -1) {
+				ids = append(ids, ident{line[m[0]:m[1]], reflua.Span{Off: ln.Start + m[0], End: ln.Start + m[1]}, false})
+			}
+		}
+		for k, id := range ids {
 			l := spanLoc(f.Path, f.Text, id.sp)
+			if k >= annFrom {
+				qs = append(qs, q{"textDocument/definition", fi, id.name, l, len(req.Steps)})
+				req.Steps = append(req.Steps, harness.Call("textDocument/definition", harness.TDPos(f.Path, l.SL, l.SC)))
+				env.Stats.Class("annotation-name-query")
+				continue
+			}
 			// non-trivial: preceded on its line by a string, a comment, a tab or a non-ASCII character
 			ls := refmodel.Lines(f.Text)
 			pre := f.Text[ls[l.SL].Start:id.sp.Off]
